@@ -631,6 +631,12 @@ fn expected_probes(prop: &str) -> &'static [&'static str] {
             "ternary_nonbool_condition",
             "match_skips_later_cases",
             "match_no_case",
+            "stored_program_evaluated",
+            "pre_failed_compile",
+            "pre_failed_exec",
+            "pre_exec_into_depth_limit",
+            "pre_sibling_context_diverged_and_executed",
+            "pre_sibling_bindings_diverged_and_executed",
         ],
         "C07" => &[
             "all_stops_early",
@@ -645,6 +651,11 @@ fn expected_probes(prop: &str) -> &'static [&'static str] {
             "macro_over_map",
             "stored_program_evaluated",
             "hash_keys_variant",
+            "pre_failed_compile",
+            "pre_failed_exec",
+            "pre_exec_into_depth_limit",
+            "pre_sibling_context_diverged_and_executed",
+            "pre_sibling_bindings_diverged_and_executed",
         ],
         "C08" => &[
             "has_on_null",
@@ -657,6 +668,12 @@ fn expected_probes(prop: &str) -> &'static [&'static str] {
             "coalesce_skips_possibly_failing_arg",
             "coalesce_nothing_qualifies",
             "bound_via_json",
+            "stored_program_evaluated",
+            "pre_failed_compile",
+            "pre_failed_exec",
+            "pre_exec_into_depth_limit",
+            "pre_sibling_context_diverged_and_executed",
+            "pre_sibling_bindings_diverged_and_executed",
         ],
         "C09" => &[
             "bare_clock_program_executed",
@@ -682,6 +699,16 @@ fn expected_probes(prop: &str) -> &'static [&'static str] {
             "function_bound",
             "clock_moved_backwards",
             "list_result_of_macro_compared_with_twin",
+            "failed_compile",
+            "failed_compile_over_stored_program",
+            "interleave",
+            "interleave_park",
+            "interleave_resume",
+            "interleave_start_while_others_parked",
+            "interleave_exec_completed_while_others_parked",
+            "interleave_nested_start_on_same_thread",
+            "interleave_two_or_more_parked",
+            "interleave_eight_or_more_parked",
         ],
         "C12" => &[
             "expect_chain:macro_body:le16",
@@ -699,6 +726,14 @@ fn expected_probes(prop: &str) -> &'static [&'static str] {
             "expect_replace-program-referenced",
             "expect_rebind-variable",
             "expect_json-binding-equals-direct",
+            "expect_call-function-before-macro:method",
+            "expect_rho:4:cycle4",
+            "expect_rho:3:path",
+            "expect_dag:4",
+            "expect_after-cycle:macro_body",
+            "expect_many-absorbed:mixed",
+            "expect_two-contexts-same-names",
+            "expect_replace-program-referenced-in-macro-body-clone-alive",
         ],
         _ => &[],
     }
